@@ -406,3 +406,74 @@ def register(R, tier="quick"):
                    w_owner(I, env, z3.Int("wseg"), env["docnum"]),
                    to_z3(env["result"]) == DEL(z3.Int("wseg"), env["docnum"] - z3.Select(env["self"].fields["_doc_offsets"].arr, z3.Int("wseg")))))],
                returns="bool")
+
+    # ------------------------------------------------------------------ W3Segment: the per-segment deletion set (C07)
+    W3 = "whoosh.codec.whoosh3"
+
+    class DelSet(Abstract):
+        """a python set of document numbers: membership function"""
+        def __init__(self, I):
+            self.mem = z3.Array(I.fresh_name("deleted"), IntS, z3.BoolSort())
+
+        def havoc(self, I):
+            self.mem = z3.Array(I.fresh_name("deleted"), IntS, z3.BoolSort())
+
+        def __deepcopy__(self, memo):
+            c = DelSet.__new__(DelSet)
+            c.mem = self.mem
+            return c
+
+        def is_none(self, I):
+            return False
+
+        def has(self, d):
+            return z3.Select(self.mem, to_z3(d))
+
+        def contains(self, I, d):
+            return self.has(d)
+
+        def m_add(self, I, d):
+            self.mem = z3.Store(self.mem, to_z3(d), z3.BoolVal(True))
+
+        def m_remove(self, I, d):
+            I.oblige("no-raise", "remove-present", self.has(d), note="set.remove of an absent element raises KeyError")
+            self.mem = z3.Store(self.mem, to_z3(d), z3.BoolVal(False))
+
+        def m_discard(self, I, d):
+            self.mem = z3.Store(self.mem, to_z3(d), z3.BoolVal(False))
+
+        def m_clear(self, I, *args):
+            if args:
+                I.raise_builtin("TypeError", None)
+            self.mem = z3.K(IntS, z3.BoolVal(False))
+
+    def seg_setup(I, delete, has_set):
+        seg = Obj(I.repo.klass(W3, "W3Segment"), {"_deleted": DelSet(I) if has_set else None, "_doccount": z3.Int("doccount")})
+        return {"self": seg, "docnum": z3.Int("docnum"), "delete": delete}
+
+    def seg_post(I, env):
+        s, s0 = env["self"].fields["_deleted"], I.old_env["self"].fields["_deleted"]
+        d = env["docnum"]
+        k = z3.Int("dk")
+        was = (lambda x: s0.has(x)) if isinstance(s0, DelSet) else (lambda x: z3.BoolVal(False))
+        now = (lambda x: s.has(x)) if isinstance(s, DelSet) else (lambda x: z3.BoolVal(False))
+        return z3.ForAll([k], now(k) == z3.If(k == d, z3.BoolVal(bool(env["delete"])), was(k)))
+
+    def empty_delset(I, args, kw, node):
+        ds = DelSet(I)
+        ds.mem = z3.K(IntS, z3.BoolVal(False))
+        return ds
+    from pyvc.values import Builtin
+    R.contract(W3 + ":W3Segment.delete_document", props=["C07"], setup=seg_setup,
+               opts={"builtin_override": {"set": Builtin("set", empty_delset)}},
+               variants=[dict(delete=True, has_set=False), dict(delete=True, has_set=True),
+                         dict(delete=False, has_set=True), dict(delete=False, has_set=False)],
+               ensures=[seg_post],
+               canaries=[Canary("delete-is-noop-on-existing-set", "self._deleted.add(docnum)", "pass")],
+               note="delete_document(d) marks exactly d deleted; delete_document(d, delete=False) unmarks exactly d; every other "
+                    "document keeps its state")
+    R.contract(W3 + ":W3Segment.is_deleted", props=["C07"],
+               setup=lambda I, has_set: seg_setup(I, True, has_set), variants=[dict(has_set=True), dict(has_set=False)],
+               ensures=[lambda I, env: to_z3(env["result"]) == (env["self"].fields["_deleted"].has(env["docnum"])
+                                                                if isinstance(env["self"].fields["_deleted"], DelSet) else z3.BoolVal(False))],
+               returns="bool")
